@@ -44,6 +44,10 @@ def _dt_strategy(tier, kind):
             # balanced regime: viscosity chosen so that the diffusive limit is this multiple of the advective limit of the first
             # velocity field (None: independent viscosity) - the two limits cross within the drawn window
             "nu_balance": draw(st.one_of(st.none(), st.none(), gen.floats(0.25, 4.0, 32))),
+            # the largest velocity sits in one of the first / last cells of the flattened array (remainder cells of any chunked or
+            # blocked reduction): [component, flat index (negative: from the end), magnitude exponent] or None
+            "tail_spike": draw(st.one_of(st.none(), st.tuples(st.integers(0, dim - 1), st.integers(-12, 11), st.integers(0, 12)).map(list))),
+            "threads": draw(st.sampled_from([2, 2, 1, 3, 4, 5, 7])),
             "cfl": draw(gen.floats(0.01, 2.0, 32)), "prefac": draw(gen.floats(0.01, 1.0, 32)), "velocity": vel, "vkind": vk,
             # history on the SAME simulator object: the velocity is overwritten between queries (as every flow step does),
             # optionally with a time step in between
@@ -70,7 +74,7 @@ def _dt_body(case, ctx):
             dx0 = float(case["x_range"]) / shape[-1]
             case = dict(case, nu=0.9 * dx0 * um / (2 * dim * case["cfl"]) / float(case["nu_balance"]))
             ctx.note(labels=["limits_balanced"])
-    kw = dict(grid_size=shape, x_range=case["x_range"], kinematic_viscosity=case["nu"], cfl=case["cfl"], real_t=real_t, num_threads=2)
+    kw = dict(grid_size=shape, x_range=case["x_range"], kinematic_viscosity=case["nu"], cfl=case["cfl"], real_t=real_t, num_threads=case.get("threads", 2))
     with ctx.repo_call(f"constructing {kind}"):
         if kind == "ns2d":
             sim = sps.UnboundedNavierStokesFlowSimulator2D(penalty_zone_width=0, **kw)
@@ -89,6 +93,10 @@ def _dt_body(case, ctx):
             with ctx.repo_call("time_step"):
                 sim.time_step(dt=float(dt1f) * 0.5)
         sim.velocity_field[...] = gen.build_vector_field(rnd["velocity"], shape, real_t)
+        if case.get("tail_spike") is not None:
+            c_, i_, e_ = case["tail_spike"]
+            flat = sim.velocity_field[c_].reshape(-1)
+            flat[max(-flat.size, min(flat.size - 1, i_))] = real_t(-(2.0 ** e_) * (1.0 + float(np.max(np.abs(flat)))))
         u0 = sim.velocity_field.copy()
         with ctx.repo_call("compute_stable_timestep"):
             dt1 = sim.compute_stable_timestep()
@@ -108,7 +116,7 @@ def _dt_body(case, ctx):
         dif = case["nu"] * dt1f / dx**2
         if dif > lim * (1 + 32 * eps):
             raise Violation(f"diffusive limit exceeded: nu*dt/dx^2 = {dif!r} > 0.9/(2d) = {lim!r} by a factor {dif / lim:.6f} {where}")
-    ctx.note(labels=[f"queries_{len(rounds)}"])
+    ctx.note(labels=[f"queries_{len(rounds)}", f"threads_{case.get('threads', 2)}"] + (["peak_in_first_or_last_cells"] if case.get("tail_spike") else []))
     viscous_active = dif > 0.5 * lim
     ctx.note(nontrivial=(viscous_active or umax > 0) and len(set(shape)) > 1,
              labels=[kind, case["dtype"], "velocity_" + case["vkind"], "viscous_limit_active" if viscous_active else "advective_limit_active"])
